@@ -13,6 +13,7 @@ ASSUMPTIONS = [
     "operating points whose evaporating pressure is below 1 kPa are outside the alphabet (the property library's state inversions break down there)",
     "'solves' means solve() returns; operating points where the property library (CoolProp) itself raises are counted as not solved and are not violations",
     "tolerances are relative 1e-7 (CoolProp's own state inversions are only that accurate); saturation pressures are compared with an independent PropsSI call",
+    "a cycle object solved a second time (after a solve with the default internal exchanger / with another lift) must equal a fresh object",
     "request histories: every sequence of <=3 requests from {condenser, evaporator, both} after solve (39 orders) against the same request on a freshly solved cycle",
 ]
 QUICK_FLUIDS = ["water", "ammonia", "R134a", "R600a", "R290", "R1234yf", "R245fa", "CO2"]
@@ -147,6 +148,7 @@ def cycle_run(case, res: Result):
             res.violate("saturation_pressures", case, dict(detail, p_evap=p_e, p_cond=p_c), "saturation_pressures:" + tag)
     except Exception:
         res.stats["propssi_failed"] += 1
+    n_hist = 0
     # emitted streams
     fresh = {}
     for name, kw in REQS:
@@ -167,8 +169,25 @@ def cycle_run(case, res: Result):
     if sorted(t[0:3] + (round(t[3], 9),) for t in fresh["both"]) != sorted(t[0:3] + (round(t[3], 9),) for t in cond + evap):
         if not same(sorted(fresh["both"]), sorted(cond + evap)):
             res.violate("both_ne_cond_plus_evap", case, {"both": fresh["both"], "cond": cond, "evap": evap}, "both_ne_cond_plus_evap:" + tag)
+    # re-solving ONE object: whatever was solved before (here: the default internal exchanger, another lift), the second solve
+    # must give the state points of a fresh object
+    if case["Q"] == 1.0:
+        from OpenPinch.classes.simple_heat_pump import SimpleHeatPumpCycle
+        for pre in ({"ihx_gas_dt": 40.0, "dlift": 0.0}, {"ihx_gas_dt": 0.0, "dlift": 20.0}):
+            hp4 = SimpleHeatPumpCycle()
+            try:
+                hp4.solve(Te=case["Te"], Tc=case["Tc"] + pre["dlift"], dT_sh=case["sh"], dT_sc=case["sc"], eta_comp=case["eta"], refrigerant=case["fluid"],
+                          ihx_gas_dt=pre["ihx_gas_dt"], Q_h_total=2.0)
+                hp4.solve(Te=case["Te"], Tc=case["Tc"], dT_sh=case["sh"], dT_sc=case["sc"], eta_comp=case["eta"], refrigerant=case["fluid"],
+                          ihx_gas_dt=0.0, Q_h_total=case["Q"])
+            except Exception:
+                res.stats["resolve_not_solved"] += 1
+                continue
+            n_hist += 2
+            if any(abs(a - b) > 1e-9 * max(1.0, abs(b)) for a, b in zip(list(hp4.Hs) + list(hp4.Ps) + [hp4.Q_evap, hp4.work], list(H) + list(Ps) + [hp.Q_evap, hp.work])):
+                res.violate("second_solve_ne_fresh_solve", case, {"previous_solve": pre, "H": hp4.Hs, "fresh_H": H, "Q_evap": hp4.Q_evap, "fresh_Q_evap": hp.Q_evap},
+                            "second_solve_ne_fresh_solve:" + ("after-ihx" if pre["ihx_gas_dt"] else "after-other-lift"))
     # request histories (H-mode): all sequences of <= 3 requests on ONE solved cycle
-    n_hist = 0
     if case["Q"] == 1.0 or case.get("all_hist"):
         for n in (1, 2, 3):
             for seq in itertools.product(range(3), repeat=n):
